@@ -156,9 +156,22 @@ func Run(r *core.Run) {
 	cases = append(cases, fault.ConfigCases("ecdsa-signing", []int{0, 1}, nil)...)
 	cases = append(cases, fault.ConfigCases("ecdsa-resharing", []int{0, 1}, map[int]int{2: 3, 3: 2})...)
 	cases = append(cases, fault.ConfigCases("ecdsa-keygen", nil, map[int]int{0: 1, 1: 0})...)
+	// under-sized (1024-bit) Paillier / ring-Pedersen parameters brought by one party
+	cases = append(cases, fault.WeakCases("ecdsa-keygen", []int{0, 1})...)
+	cases = append(cases, fault.WeakCases("ecdsa-resharing", []int{2, 3})...)
 	if full {
 		cases = append(cases, fault.ConfigCases("ecdsa-signing-3", []int{0, 1, 2}, nil)...)
 		cases = append(cases, fault.ConfigCases("ecdsa-keygen-3", nil, map[int]int{0: 2, 2: 0, 1: 2})...)
+	}
+	if f := os.Getenv("VERIF_C05_FILTER"); f != "" { // development aid: run only the cases whose description contains f
+		var sel []fault.Case
+		for _, c := range cases {
+			if strings.Contains(c.Scenario+"/"+c.Dev.Sig(), f) {
+				sel = append(sel, c)
+			}
+		}
+		cases = sel
+		r.Cap("VERIF_C05_FILTER=" + f)
 	}
 	for i := range cases {
 		cases[i].ID = i
